@@ -66,10 +66,13 @@ func (f *WithZipWriter) Call(s *slip.Scope, args slip.List, depth int) slip.Obje
 		slip.TypePanic(s, depth, "args[0]", args[0], "symbol")
 	}
 	d2 := depth + 1
-	args = args[1:]
-	for i := range args {
-		args[i] = slip.EvalArg(s, args, i, d2)
+	// The values are not stored in the form, the form is evaluated again on
+	// the next call.
+	vals := make(slip.List, len(args)-1)
+	for i := range vals {
+		vals[i] = slip.EvalArg(s, args, i+1, d2)
 	}
+	args = vals
 	var w io.Writer
 	if w, ok = args[0].(io.Writer); !ok {
 		slip.TypePanic(s, depth, "args[1]", args[0], "output-stream")
